@@ -221,12 +221,19 @@ def functions():
 
     def full(r):
         sh = shapes(r, 1)
-        return [P(r, ())], lambda f: numpoly.full(sh, f), lambda i: numpy.full(sh, i), {"shape": sh}
+        # a one-dimensional shape may be given as a bare (Python or numpy) integer (D48)
+        arg = sh if len(sh) != 1 or r.random() < .4 else gen.choice(r, [sh[0], numpy.int64(sh[0]), [sh[0]]])
+        return [P(r, ())], lambda f: numpoly.full(arg, f), lambda i: numpy.full(arg, i), {"shape": repr(arg)}
     one("full", full)
 
     def full_like(r):
         sh = shapes(r)
         kind = gen.choice(r, ["int", "float"])      # same coefficient kind: full_like casts the fill value to a's dtype
+        if r.random() < .35:
+            # the shape= override, as tuple or bare integer (D49)
+            new = gen.choice(r, [3, numpy.int64(2), (2, 2), (1,), ()])
+            return [P(r, sh, kind=kind), P(r, (), kind=kind)], lambda a, f: numpoly.full_like(a, f, shape=new), \
+                lambda i, j: numpy.full_like(i, j, shape=new), {"shape": repr(new)}
         return [P(r, sh, kind=kind), P(r, (), kind=kind)], lambda a, f: numpoly.full_like(a, f), lambda i, j: numpy.full_like(i, j), {}
     one("full_like", full_like)
 
